@@ -250,7 +250,7 @@ class Run:
                     bad.append((json.loads(lines[v["i"] - 1]), v["v"]))
         return bad
 
-    def record_and_validate(self, n, seed_salt=0, maxlen=90, parse_only=50, chunks=None, pinned=None, host_alphabet=None, host_len=3):
+    def record_and_validate(self, n, seed_salt=0, maxlen=90, parse_only=50, chunks=None, pinned=None, host_alphabet=None, host_len=3, parser=None):
         """T-mode: seeded random drivers on the real code (vh record) -> TLC (Trace_Api.tla). Returns [(event, verdicts)]."""
         chunks = chunks or min(12, NCPU)
         pre = os.path.join(self.scratch, "trace%d.ev" % seed_salt)
@@ -260,14 +260,23 @@ class Run:
             cmd += ["--pinned", json.dumps(pinned)]
         if host_alphabet:
             cmd += ["--host-alphabet", json.dumps(host_alphabet), "--host-len", str(host_len)]
+        module = "Trace_Api"
+        popts = "DefaultOpts"
+        if parser:
+            # histories on a parser built with an option whose effect the specification models exactly: validate against the spec run with that option record
+            cmd += ["--parser", parser]
+            module = "T_%s_%d" % (re.sub(r"\W", "_", parser), seed_salt)
+            with open(os.path.join(self.scratch, module + ".tla"), "w") as f:
+                f.write('---- MODULE %s ----\nEXTENDS Trace_Api\nF_POpts == OptsOf("%s")\n====\n' % (module, parser))
+            popts = "F_POpts"
         t0 = time.time()
         p = subprocess.run(cmd, cwd=self.scratch, capture_output=True, text=True, timeout=600)
         m = re.search(r"EVENTS kind=record n=(\d+) histories=(\d+)", p.stdout)
         if p.returncode != 0 or not m:
             raise Infra("record driver failed: %s %s" % (p.stdout[-1000:], p.stderr[-2000:]))
-        body = ('CONSTANTS\n NH = 3\n Dev <- DevImpl\n WithRT = FALSE\n WithLaw = FALSE\n POpts <- DefaultOpts\nINIT TInit\nNEXT TNext\nINVARIANT Done\n'
+        body = ('CONSTANTS\n NH = 3\n Dev <- DevImpl\n WithRT = FALSE\n WithLaw = FALSE\n POpts <- ' + popts + '\nINIT TInit\nNEXT TNext\nINVARIANT Done\n'
                 'CHECK_DEADLOCK FALSE\nPOSTCONDITION AllConsumed\n')
-        bad = self.validate_events(["%s.%d" % (pre, i) for i in range(chunks)], module="Trace_Api", cfg_body=body)
+        bad = self.validate_events(["%s.%d" % (pre, i) for i in range(chunks)], module=module, cfg_body=body)
         nev = int(m.group(1))
         self.validated += nev
         self.executions += nev
